@@ -865,7 +865,7 @@ pub fn run_tree<T: ADNum>(ctx: &mut Ctx, pid: &str, e: &E, specs: &[LeafSpec], n
     let mut bands: Vec<Banded> = exact_nodes.into_iter().map(Banded::new).collect();
     for s in 0..NOISY_RUNS {
         let mut nodes = vec![];
-        eval_ref(e, &leaves_ref, &mut Noise::noisy(crate::rng::mix(noise_seed, s)), &mut nodes);
+        eval_ref(e, &leaves_ref, &mut Noise::noisy((crate::rng::mix(noise_seed, s) & !1) | (s & 1)), &mut nodes);
         for (b, n) in bands.iter_mut().zip(nodes.iter()) {
             b.absorb(n);
         }
